@@ -64,7 +64,7 @@ CHECKS.update({
                           "all classes; the harness concretises each into equivalent spellings, computes the RFC 6455 digest from the key parsed out of the request actually written, runs two "
                           "connection attempts per object and Mon_C10 (TLC) checks request well-formedness, key freshness, Ready iff correct reply, reporting of protocol/extensions, no message "
                           "events and a closed socket otherwise.",
-            "level_note": _NOTE + "Digest/base64/token comparisons are data-level facts established by the harness (hashlib, base64). Known finding K1 (case-insensitive accept comparison) is reported as KNOWN-FINDING."},
+            "level_note": _NOTE + "Digest/base64/token comparisons are data-level facts established by the harness (hashlib, base64); the reading of header blocks (case-insensitive names, optional whitespace, obs-fold, repeated fields) is specified in spec/HttpHeaders.tla and every block of <= 2 lines it generates is compared with lomond.response.Response. Known finding K1 (case-insensitive accept comparison) is reported as KNOWN-FINDING."},
     "C19": {"technique": "explicit TLA+ model of proxy selection and the CONNECT exchange (spec/Proxy.tla) checked by TLC (NothingBeforeTunnel, ProxyOnlyWhenConfigured); every behaviour replayed into the real code; traces judged by the TLA+ monitor Mon_C19 evaluated by TLC",
             "level_text": "TLC explores every behaviour of the proxy model (targets x mappings x refused connect / CONNECT write error / 13 proxy answer classes x cuts) and checks that no "
                           "handshake byte precedes a complete 200 answer; each behaviour is replayed against the real _connect/_connect_proxy code with the mapping spelled with missing / None / "
